@@ -13,7 +13,9 @@ from typing import Any, Optional
 import elementpath.aliases as ta
 
 from elementpath.exceptions import ElementPathValueError
+from elementpath.datatypes import UntypedAtomic
 from elementpath.sequences import xlist, XSequence
+from elementpath.xpath_nodes import XPathNode
 from elementpath.helpers import split_function_test
 
 from elementpath.sequence_types import match_sequence_type
@@ -102,6 +104,19 @@ class XPathArray(XPathFunction):
             return [tk.evaluate(context) for tk in self._items]
 
     def __call__(self, *args: ta.FunctionArgType, context: ta.ContextType = None) -> ta.ValueType:
+        if len(args) == 1 and isinstance(args[0], list) and len(args[0]) == 1:
+            args = args[0][0],
+        if len(args) == 1 and isinstance(args[0], (XPathNode, XPathArray)):
+            # Function conversion rules: the position is atomized
+            values = [x for x in self.atomize_item(args[0])]
+            if len(values) == 1:
+                args = values[0],
+        if len(args) == 1 and isinstance(args[0], UntypedAtomic):
+            try:
+                args = int(args[0].value),
+            except ValueError as err:
+                raise self.error('FORG0001', err) from None
+
         if len(args) != 1 or not isinstance(args[0], int):
             raise self.error('XPTY0004', 'exactly one xs:integer argument is expected')
 
